@@ -28,7 +28,7 @@ TIMESIGS = ['*M4/4', '*M3/4', '*M6/8', '*M2/2', '*M3+2/8', '*M12/8', '*M5/4']
 STAFFS = ['*staff1', '*staff2', '*staff1/2']
 INSTRS = ['*Ipiano', '*I"Organo', '*Ivioln', '*mI"Solo']
 TANDEMS = ['*tb8', '*solo', '*above', '*below', '*cue', '*Xcue', '*MM120', '*8va', '*X8va', '*>A', '*>[A,B]', '*lh', '*rh', '*ped', '*Xped', '*part1', '*rscale:2']
-LYRICS = ['Ky-', 'ri-', 'e', 'le-', 'i-', 'son', 'A-', 'men', 'señor', 'été', 'lu-', 'jah', 'the cat', 'a, b', '"quoted"', "it's", 'do re mi', 'glo-', 'ria', 'Ω', 'ß', 'x,y', 'and;']
+LYRICS = ['Ky-', 'ri-', 'e', 'le-', 'i-', 'son', 'A-', 'men', 'señor', 'été', 'lu-', 'jah', 'the cat', 'a, b', '"quoted"', "it's", 'do re mi', 'glo-', 'ria', 'Ω', 'ß', 'x,y', 'and;', '...', '..']
 DYNAMICS = ['p', 'f', 'mf', 'pp', 'ff', 'sfz', 'cresc.', 'dim.', '<', '>', 'fp', 'mp']
 HARMONY = ['I', 'V7', 'IV', 'ii6', 'Cmaj7', 'N.C.', 'vi', 'V/V', 'bVII']
 FINGERING = ['1', '2', '3', '5', '1 2', '3 5', '4']
@@ -148,6 +148,10 @@ class CellGen:
         kind, pool = TEXT_KIND.get(header, ('otherText', LYRICS))
         if r.random() < 0.3:
             return {'k': 'other', 'kind': 'empty', 'text': '.'}
+        if r.random() < 0.08:
+            # free text that happens to read like a **kern note or rest (a chord label 'G', a syllable 'r', a fingering '4c'): the same cell
+            # text as a note of a **kern / **root spine, under the spine's own category
+            return {'k': 'other', 'kind': kind, 'text': r.choice(['G', 'r', 'C', 'e', '4c', 'a', 'B-', 'f#', 'cc', '2r'])}
         return {'k': 'other', 'kind': kind, 'text': r.choice(pool)}
 
     def interp_cell(self, header, what=None):
@@ -213,7 +217,7 @@ class DocGen:
              'free' (mid-score signature changes, splits across barlines)."""
 
     def __init__(self, rng, profile='core', max_spines=4, kern_only=False, comments=True, max_measures=5, sig_weight=0.35,
-                 split_depth=2, plain_notes=False, even_preamble=False):
+                 split_depth=2, plain_notes=False, even_preamble=False, unknown=False, double_bars=False):
         self.rng = rng
         self.profile = profile
         self.max_spines = max_spines
@@ -223,6 +227,8 @@ class DocGen:
         self.cg = CellGen(rng, sig_weight=sig_weight)
         self.split_depth = split_depth
         self.even_preamble = even_preamble
+        self.unknown = unknown          # add a spine of a type the library has no importer for (**recip, **silbe, ...)
+        self.double_bars = double_bars  # sometimes two barline lines in a row (a repeat end followed by a repeat start): an empty measure
         if plain_notes:
             self.cg.plain = True
 
@@ -237,6 +243,8 @@ class DocGen:
         r.shuffle(hs)
         if '**kern' not in hs:
             hs[0] = '**kern'
+        if self.unknown:
+            hs.insert(r.randrange(len(hs) + 1), r.choice(['**recip', '**silbe', '**cdata']))
         return hs
 
     def make(self):
@@ -274,6 +282,10 @@ class DocGen:
                 bar = self.cg.bar(number if r.random() < 0.8 else None)
                 number += 1
                 cells_row('bar', lambda h, s, b=bar: dict(b))
+                if self.double_bars and r.random() < 0.2:
+                    bar2 = self.cg.bar(None)
+                    number += 1
+                    cells_row('bar', lambda h, s, b=bar2: dict(b))
             ndata = r.randint(1, 4)
             open_splits = 0
             for k in range(ndata):
@@ -516,6 +528,25 @@ def shift_doc(rng):
         oprow(['*v' if s == b else '*' for s in live]); data()
     rows.append({'kind': 'cells', 'rk': 'term', 'cells': [op_cell('*-') for _ in live], 'live': list(live)})
     return {'headers': hs, 'rows': rows, 'profile': 'shift'}
+
+
+def long_score(spines=1):
+    """a long plain score: more lines than twice the interpreter's recursion limit; one or two **kern spines of quarter notes, a barline every
+    four lines, clef and meter in the preamble.  Returns (text, lines as lists of cells)."""
+    import sys
+    n = 2 * sys.getrecursionlimit() + 300
+    letters = ['c', 'd', 'e', 'f', 'g', 'a', 'b', 'cc', 'C', 'G']
+    rows = [['**kern'] * spines, ['*clefG2'] * spines, ['*M4/4'] * spines]
+    m = 0
+    for i in range(n):
+        if i % 4 == 0:
+            m += 1
+            rows.append(['=%d' % m] * spines)
+        rows.append(['4' + letters[(i * 7 + j * 3) % len(letters)] for j in range(spines)])
+    rows.append(['=='] * spines)
+    rows.append(['*-'] * spines)
+    text = ''.join('\t'.join(r) + '\n' for r in rows)
+    return text, rows
 
 
 def all_cells(doc):
